@@ -23,6 +23,7 @@ var propPkgs = map[string][]string{
 	"C18": {"./internal/tools/regexAnalysis"},
 	"C07": {"./internal/index"},
 	"C15": {"./internal/index/converters"},
+	"C14": {"./internal/query"},
 }
 
 type Finding struct {
